@@ -43,9 +43,15 @@ func heavyRun(prop string) func(c *Ctx, idx int) {
 		var qs []q
 		switch prop {
 		case "C01":
-			qs = []q{{"length(x[?[*].a])", "0"}, {"length(x[?[*]])", fmt.Sprint(rows)}, {"x[*][?@ > `7`] | length(@)", fmt.Sprint(rows)}, {"sum(x[*].length(@))", fmt.Sprint(rows * n)}}
+			qs = []q{{"length(x[?[*].a])", "0"}, {"sum(x[*].length(@))", fmt.Sprint(rows * n)}}
+			if c.Tier == "thorough" {
+				qs = append(qs, q{"length(x[?[*]])", fmt.Sprint(rows)}, q{"x[*][?@ > `7`] | length(@)", fmt.Sprint(rows)})
+			}
 		case "C17":
-			qs = []q{{"x[?[*].a].c == (x[?[*].a] | [*].c)", "true"}, {"{k: x[?[*].a]}.k == x[?[*].a]", "true"}, {"[y[?[*].a], y[?[*].b]] == [y[?[*].a], y[?[*].b]][*]", "true"}, {"(x[*][?@ > `7`])[0] == (x[*][?@ > `7`] | [0])", "true"}}
+			qs = []q{{"y[?[*].a].c == (y[?[*].a] | [*].c)", "true"}, {"{k: y[?[*].a]}.k == y[?[*].b]", "true"}}
+			if c.Tier == "thorough" {
+				qs = append(qs, q{"[y[?[*].a], y[?[*].b]] == [y[?[*].a], y[?[*].b]][*]", "true"}, q{"(x[*][?@ > `7`])[0] == (x[*][?@ > `7`] | [0])", "true"}, q{"x[?[*].a].c == (x[?[*].a] | [*].c)", "true"})
+			}
 		default: // C18: two heavy stages in one pipe against the same stages in two searches
 			e1 := "{n: length(y[?[*].a]), x: x, y: y}"
 			e2 := "[n, length(y[?[*].b]), length(x)]"
